@@ -76,6 +76,11 @@ CHECKS["C20"] = dict(
     note="Bounds: <= 3-5 training values in <= 2 sequences, n_components 2..4, 2 transform sequences of 1-3 values. The pandas model (Interval, IntervalIndex, interval_range, cut().value_counts()) is validated by replaying one witness per explored path on the real pandas. Known finding F21 (constant training data) is reported as KNOWN-FINDING. The KDE clause is not decided (compiled sklearn KernelDensity; listed as uncovered).",
     ref="4/C20")
 
+CHECKS["C10"] = dict(
+    text="Bounded symbolic model checking of the kernels' memory accesses: the real source of every numba kernel reached by the harnesses of the other properties (coo_utils accumulator and em_update_matrix, BPE contraction kernels, window functions and kernels, the token / multiset / timed / n-gram co-occurrence drivers with 1 kB buffers, sliding windows, LZ, distances, n-gram / skip-gram builders, information-weight kernels incl. approximate and supervised, the row-denoising EM kernel) is executed with Python semantics on symbolic inputs; every subscript carries the assertion -n <= i < n decided by the solver on each path, reads of np.empty / never-assigned memory and uses of unassigned locals are faults. A fault is replayed on the compiled package under NUMBA_BOUNDSCHECK=1; the result of each explored path is additionally compared with the compiled result (same result as normal execution).",
+    note="Bounds: those of the host harnesses (sequences of <= 3-5 tokens, strings <= 5-7 characters, buffers of capacity 4..12 with lowered sort threshold, matrices <= 3 x 3 ...). Functional assertions are switched off in this check (memory_only), only index / uninitialised / unbound faults count. Optimal-transport kernels and third-party compiled code are outside; the row-denoising fix-point loop is not unrolled.",
+    ref="4/C10")
+
 NOT_YET = {}
 
 
